@@ -427,7 +427,7 @@ func runC20O1(c *Ctx) {
 	}
 	isLog := func(i ssa.Instruction) bool {
 		call, ok := i.(*ssa.Call)
-		return ok && call.Call.IsInvoke() && call.Call.Method.Name() == "Log" && namedIs(call.Call.Value.Type(), "logger.Logger")
+		return ok && c20IsLogCall(&call.Call)
 	}
 	// the inner handler: h.ServeHTTP(rw, r), or a handler kept as a function value and called directly: h(rw, r)
 	isInner := func(i ssa.Instruction) bool {
@@ -466,13 +466,7 @@ func runC20O1(c *Ctx) {
 	}
 	c.atLeast("C20.O1", "Logger.Log calls reachable from ServeHTTP", len(logs), 1)
 	// where ServeHTTP itself gets there: the Log call, or the call of the helper that makes it
-	tops := c20Lifted(serve, isLog, false)
-	var inner ssa.Instruction
-	for _, i := range c20Lifted(serve, isInner, false) {
-		if inner == nil || dominatesInstr(i, inner) {
-			inner = i
-		}
-	}
+	tops := append(c20Lifted(serve, isLog, false), c20DeferredDoing(serve, isLog)...)
 	once := len(logs) == 1 && len(tops) == 1
 	if once {
 		// neither the call in ServeHTTP nor the Log call in its helper sits in a loop
@@ -497,12 +491,7 @@ func runC20O1(c *Ctx) {
 		where := fnKey(l.Parent())
 		c.check("C20.O1", where+"|exactly one log line per request path", l.Pos(), once,
 			"a request must produce exactly one access-log line: no path may execute Logger.Log twice")
-		after := inner != nil && len(tops) > 0
-		for _, t := range tops {
-			if inner == nil || !dominatesInstr(inner, t) {
-				after = false
-			}
-		}
+		after := len(tops) > 0 && c20LoggedAfter(serve, isLog, isInner, 0)
 		c.check("C20.O1", where+"|logged after the response was handled", l.Pos(), after, "the event is logged after the inner handler returned (status and size are known)")
 		evs := c20Allocs(l.Call.Args[0], "logger.Event")
 		if len(evs) == 0 {
@@ -539,6 +528,222 @@ func runC20O1(c *Ctx) {
 		}
 		c.check("C20.O1", where+"|event.UpstreamAddr is the target URL's host", l.Pos(), okAddr, "$upstream_addr/_host/_port describe the upstream the request was sent to")
 	}
+}
+
+// c20LoggedAfter: wherever f gets to the Log call (the call itself, or the call of the helper that makes it) the inner
+// handler has returned: an instruction that runs the inner handler (itself or through a helper) dominates it. When
+// ONE call does both - the tail of the request path, handler call and access log together, was moved into a helper -
+// the order is decided inside that helper.
+func c20LoggedAfter(f *ssa.Function, isLog, isInner func(ssa.Instruction) bool, depth int) bool {
+	if f == nil || len(f.Blocks) == 0 || depth > 4 {
+		return false
+	}
+	tops := append(c20Lifted(f, isLog, false), c20DeferredDoing(f, isLog)...)
+	inners := c20Lifted(f, isInner, false)
+	eachInstr(f, func(i ssa.Instruction) {
+		if c20RunsArgument(i, isInner) {
+			inners = append(inners, i)
+		}
+	})
+	if len(tops) == 0 || len(inners) == 0 {
+		return false
+	}
+	for _, t := range tops {
+		if d, isDefer := t.(*ssa.Defer); isDefer {
+			// a deferred log runs when f returns: the handler has run by then if no return can be reached from the defer
+			// statement without running it
+			isIn := func(i ssa.Instruction) bool {
+				for _, x := range inners {
+					if x == i {
+						return true
+					}
+				}
+				return false
+			}
+			if _, reach := exitReachableAvoiding(d, isIn); reach {
+				return false
+			}
+			continue
+		}
+		ok, both := false, false
+		for _, i := range inners {
+			if i == t {
+				both = true
+			} else if dominatesInstr(i, t) {
+				ok = true
+			}
+		}
+		if !ok && both && !isLog(t) && !isInner(t) {
+			if call, isCall := t.(*ssa.Call); isCall {
+				if sc := call.Call.StaticCallee(); sc != nil && isRepoFn(sc) {
+					ok = c20LoggedAfter(unwrap(sc), isLog, isInner, depth+1)
+				}
+			}
+		}
+		if !ok {
+			return false
+		}
+	}
+	return true
+}
+
+// c20CellValues: the values assigned to the local variable whose cell is addr (an Alloc, or the FreeVar through which
+// a closure sees it), in the function that declares it and in the closures that capture it; ok is false when the
+// cell's address goes anywhere else.
+func c20CellValues(addr ssa.Value, depth int) ([]ssa.Value, bool) {
+	if depth > 3 {
+		return nil, false
+	}
+	switch a := addr.(type) {
+	case *ssa.FreeVar:
+		fn := a.Parent()
+		if fn == nil || fn.Parent() == nil {
+			return nil, false
+		}
+		idx := -1
+		for k, fv := range fn.FreeVars {
+			if fv == a {
+				idx = k
+			}
+		}
+		var out []ssa.Value
+		found, ok := false, true
+		eachInstr(fn.Parent(), func(i ssa.Instruction) {
+			if mc, isMC := i.(*ssa.MakeClosure); isMC && mc.Fn == ssa.Value(fn) && idx >= 0 && idx < len(mc.Bindings) {
+				found = true
+				vs, k := c20CellValues(mc.Bindings[idx], depth+1)
+				if !k {
+					ok = false
+				}
+				out = append(out, vs...)
+			}
+		})
+		return out, found && ok
+	case *ssa.Alloc:
+		var out []ssa.Value
+		ok := true
+		var down func(v ssa.Value, d int)
+		down = func(v ssa.Value, d int) {
+			refs := v.Referrers()
+			if refs == nil || d > 3 {
+				ok = false
+				return
+			}
+			for _, ref := range *refs {
+				switch y := ref.(type) {
+				case *ssa.Store:
+					if y.Addr != v {
+						ok = false
+						return
+					}
+					out = append(out, y.Val)
+				case *ssa.UnOp:
+					if y.Op != token.MUL {
+						ok = false
+					}
+				case *ssa.DebugRef:
+				case *ssa.MakeClosure:
+					fn, isF := y.Fn.(*ssa.Function)
+					if !isF {
+						ok = false
+						return
+					}
+					for k, b := range y.Bindings {
+						if b == v && k < len(fn.FreeVars) {
+							down(fn.FreeVars[k], d+1)
+						}
+					}
+				default:
+					ok = false
+				}
+			}
+		}
+		down(a, 0)
+		return out, ok
+	}
+	return nil, false
+}
+
+// c20IsLogCall: a call of the Log method of a logger.Logger: through the interface, or through its method value called
+// where it is visible (logf := p.Logger.Log; logf(ev)). In both spellings Args[0] is the event.
+func c20IsLogCall(cc *ssa.CallCommon) bool {
+	if cc == nil {
+		return false
+	}
+	if cc.IsInvoke() {
+		return cc.Method.Name() == "Log" && namedIs(cc.Value.Type(), "logger.Logger")
+	}
+	sc := cc.StaticCallee()
+	if sc == nil || sc.Synthetic == "" || sc.Name() != "Log$bound" || len(sc.FreeVars) != 1 || len(cc.Args) != 1 {
+		return false
+	}
+	return namedIs(sc.FreeVars[0].Type(), "logger.Logger")
+}
+
+// c20DeferredDoing: the defer statements of f whose function (a closure, a named function, a method value) may do pred.
+func c20DeferredDoing(f *ssa.Function, pred func(ssa.Instruction) bool) []ssa.Instruction {
+	var out []ssa.Instruction
+	eachInstr(f, func(i ssa.Instruction) {
+		d, ok := i.(*ssa.Defer)
+		if !ok || d.Call.IsInvoke() {
+			return
+		}
+		var fns []*ssa.Function
+		if sc := d.Call.StaticCallee(); sc != nil {
+			if isRepoFn(sc) {
+				fns = append(fns, unwrap(sc))
+			}
+		} else {
+			fns = funcsOf(d.Call.Value)
+		}
+		for _, g := range fns {
+			if mayExec(g, pred, 1) {
+				out = append(out, i)
+				return
+			}
+		}
+	})
+	return out
+}
+
+// c20RunsArgument: i is a static call of a repository helper that is handed a function value which may do pred, and
+// the helper calls that parameter on every one of its paths (measure(now, func() { h.ServeHTTP(rw, r) })).
+func c20RunsArgument(i ssa.Instruction, pred func(ssa.Instruction) bool) bool {
+	call, ok := i.(*ssa.Call)
+	if !ok {
+		return false
+	}
+	sc := call.Call.StaticCallee()
+	if sc == nil || !isRepoFn(sc) || len(sc.Blocks) == 0 {
+		return false
+	}
+	sc = unwrap(sc)
+	for k, a := range call.Call.Args {
+		if _, isFn := a.Type().Underlying().(*types.Signature); !isFn || k >= len(sc.Params) {
+			continue
+		}
+		does := false
+		for _, g := range funcsOf(a) {
+			if mayExec(g, pred, 1) {
+				does = true
+			}
+		}
+		if !does {
+			continue
+		}
+		prm := sc.Params[k]
+		callsParam := func(j ssa.Instruction) bool {
+			if _, isGo := j.(*ssa.Go); isGo {
+				return false
+			}
+			cc := callCommon(j)
+			return cc != nil && !cc.IsInvoke() && cc.Value == ssa.Value(prm)
+		}
+		if mustExec(sc, callsParam, 0) {
+			return true
+		}
+	}
+	return false
 }
 
 // plainlyNonNil: a fresh allocation, the handler's own parameter, the result of a net/http method documented to
@@ -579,6 +784,21 @@ func plainlyNonNil(v ssa.Value, depth int) bool {
 		return plainlyNonNil(x.X, depth+1)
 	case *ssa.ChangeType:
 		return plainlyNonNil(x.X, depth+1)
+	case *ssa.UnOp:
+		// a local variable kept in a cell (it is captured by a closure): everything ever assigned to it is non-nil
+		if x.Op != token.MUL {
+			return false
+		}
+		vals, ok := c20CellValues(x.X, 0)
+		if !ok || len(vals) == 0 {
+			return false
+		}
+		for _, w := range vals {
+			if !plainlyNonNil(w, depth+1) {
+				return false
+			}
+		}
+		return true
 	case *ssa.Call:
 		switch calleeName(&x.Call) {
 		case "(*net/http.Request).WithContext", "(*net/http.Request).Clone":
